@@ -10,7 +10,7 @@ META = {
     "explanation": "R19a Detector.__iter__/__len__/__getitem__ (and every override in the package) consume flatten(self.subsets) and "
                    "nothing else, so the three views agree for every nesting; R19b operand order of CombinedDetector.__add__/__radd__/"
                    "__iadd__ and Detector.__add__/__radd__ (so flattened content is the concatenation, hence associative); R19c flatten "
-                   "recursion forwards dont_flatten and keeps str/bytes whole; R19d the three antenna-level any-hit tests are one clone; R19j (pointed) every return inside the loop over the union's members returns True; "
+                   "recursion forwards dont_flatten and keeps str/bytes whole; R19d the three antenna-level any-hit tests are one clone; R19k (pointed) no flattening of the subsets is stored on the instance; R19j (pointed) every return inside the loop over the union's members returns True; "
                    "R19e clear iterates self and forwards reset_noise; R19f the three position comparisons are `z > 0 -> raise` and the "
                    "test plus build mirroring run in every constructor and in +=; R19g keyword dispatch of build_antennas/triggered; "
                    "R19h MC-truth sibling agreement (shared with C09).",
@@ -224,6 +224,39 @@ def r19j(ctx):
                 ctx.ok("R19j", f"{q}.triggered", f"every early return inside the loop over {it} returns True", loc=ctx.loc(MOD, lp))
 
 
+def r19k(ctx):
+    """Pointed: the flattened antenna list depends on the subsets' own content, which a sub-detector changes when it is built or rebuilt on its own --
+    no mutator of *this* object runs then, so a flattening stored on the instance cannot be kept fresh."""
+    repo = ctx.repo
+    ctx.rule("R19k", "no detector class stores a flattening of its subsets on the instance (len / index / iteration read flatten(self.subsets) at call time: "
+             "a sub-detector rebuilt on its own changes the content without touching the container)", expected=2, kind="N")
+    for ci in [repo.cls(D), repo.cls(CD)] + [c for c in repo.subclasses("Detector") if c.qual not in (D, CD)]:
+        found = False
+        for fn in [st for st in ci.node.body if isinstance(st, ast.FunctionDef)]:
+            loc_assign = {}
+            for n in ast.walk(fn):
+                if isinstance(n, ast.Assign) and len(n.targets) == 1 and isinstance(n.targets[0], ast.Name):
+                    loc_assign.setdefault(n.targets[0].id, []).append(n.value)
+
+            def has_flatten(v, depth=0):
+                for x in ast.walk(v):
+                    if isinstance(x, ast.Call) and u(x.func).split(".")[-1] == "flatten" and x.args and "subsets" in u(x.args[0]):
+                        return True
+                    if isinstance(x, ast.Name) and isinstance(x.ctx, ast.Load) and depth < 3 and any(has_flatten(w, depth + 1) for w in loc_assign.get(x.id, [])):
+                        return True
+                return False
+            for n in ast.walk(fn):
+                tg = n.targets if isinstance(n, ast.Assign) else [n.target] if isinstance(n, (ast.AugAssign, ast.AnnAssign)) and n.value is not None else []
+                for t in tg:
+                    if isinstance(t, ast.Attribute) and u(t.value) == "self" and t.attr != "subsets" and has_flatten(n.value):
+                        found = True
+                        ctx.bad("R19k", f"{ci.qual}.{fn.name}", "the flattened content is computed when asked for, not stored on the instance",
+                                f"`{u(n)[:120]}` keeps a flattening of the subsets in self.{t.attr}; a subset built or rebuilt on its own leaves it stale",
+                                key_detail=f"stored flattening self.{t.attr}", loc=ctx.loc(ci.module, n), pointed=True)
+        if not found and ci.qual in (D, CD):
+            ctx.ok("R19k", ci.qual, "no method stores flatten(self.subsets) on the instance")
+
+
 def r19e(ctx):
     repo = ctx.repo
     ctx.rule("R19e", "Detector.clear iterates self and forwards reset_noise", expected=1, kind="N")
@@ -351,6 +384,7 @@ def run(ctx):
     ctx.guard(r19c)
     ctx.guard(r19d)
     ctx.guard(r19j)
+    ctx.guard(r19k)
     ctx.guard(r19e)
     ctx.guard(r19f)
     ctx.guard(r19g)
@@ -359,6 +393,9 @@ def run(ctx):
 
 SELFTEST = {
     "faults": [
+        {"name": "flattened antenna list kept on the instance by __len__", "file": "pyrex/detector.py",
+         "old": "        return len(list(flatten(self.subsets)))\n",
+         "new": "        if getattr(self, '_flat', None) is None:\n            self._flat = list(flatten(self.subsets))\n        return len(self._flat)\n", "rule": "R19k"},
         {"name": "subset trigger result returned as it is (a quiet first subset ends the union)", "file": "pyrex/detector.py",
          "old": "                            if triggered:\n                                return True\n                            else:\n                                break\n",
          "new": "                            return triggered\n", "rule": "R19j"},
